@@ -52,6 +52,9 @@ def cases(tier):
         yield {"D": [list(b) for b in m]}
 
 
+VWINDOWS = [(0.5, 2.0), (1.0, 2.5), (0.25, 4.0), (-1.0, 1.75), (0.0, 1.6), (1.3, 3.0), (-2.0, 0.5), (2.75, 5.0)]
+
+
 def truth(D, grid):
     """(n_bars, n_nodes) array: row k-1 = k-th largest tent at every node (float64)."""
     D = np.asarray(D, dtype=float)
@@ -208,6 +211,22 @@ def run_case(case, ctx):
                     elif not np.all(np.abs(V - T) <= 1e-12):
                         ctx.violation("vectorize", "vectorize(exact) differs from the true landscape at the grid nodes",
                                       observed=V.tolist(), expected=T.tolist(), extra={"D": D, "start": vstart, "stop": vstop, "num_steps": num})
+    # vectorize on windows that do NOT cover the support (start and/or stop strictly inside it, windows
+    # beside it): the values at the nodes are still the landscape's values there
+    for (ws, we) in VWINDOWS:
+        for num in (2, 4, 5, 9):
+            ctx.state(("vwin", D, ws, we, num))
+            vz = quiet(ctx, vectorize, ex, start=ws, stop=we, num_steps=num)
+            grid = np.linspace(ws, we, num)
+            V = values_of(vz)
+            ctx.valid()
+            want = np.array([[float(P.ev(f, float(t))) for t in grid] for f in exact_fs])
+            if V is None or V.shape != want.shape or not np.all(np.abs(V - want) <= 1e-12) or float(vz.start) != ws or float(vz.stop) != we:
+                ctx.violation("vectorize-window", "vectorize(exact, start=%r, stop=%r) differs from the exact landscape's own function at the grid nodes" % (ws, we),
+                              observed=None if V is None else V.tolist(), expected=want.tolist(), extra={"D": D, "start": ws, "stop": we, "num_steps": num})
+            elif exact_ok and not np.all(np.abs(V - truth(D, grid)[: V.shape[0]]) <= 1e-12):
+                ctx.violation("vectorize-window", "vectorize(exact, start=%r, stop=%r) differs from the true landscape at the grid nodes" % (ws, we),
+                              observed=V.tolist(), expected=truth(D, grid)[: V.shape[0]].tolist(), extra={"D": D, "start": ws, "stop": we, "num_steps": num})
     # translated (negative coordinates, a birth at exactly 0 after negative ones) and rescaled copies of
     # the whole configuration: the same oracle must hold
     for c_, a_ in ((-2.0, 1.0), (-0.75, 1.0), (0.0, 0.1), (1024.0, 1.0), (0.0, 1e-6)):
